@@ -57,6 +57,7 @@ type Engine struct {
 	ModFuncs    []*ssa.Function // every function (incl. closures) defined in the module
 	byName      map[string]*ssa.Function
 	requested   map[string]bool
+	fieldReq    map[string]fieldDesc
 	renamed     map[string]*ssa.Function
 	RenameNotes []string
 	LoadS       float64
@@ -278,12 +279,16 @@ func (e *Engine) Field(pkg, typ, field string) *types.Var {
 	if !ok {
 		return nil
 	}
+	if e.fieldReq == nil {
+		e.fieldReq = map[string]fieldDesc{}
+	}
 	for i := 0; i < st.NumFields(); i++ {
 		if st.Field(i).Name() == field {
+			e.fieldReq[pkg+"."+typ+"."+field] = fieldDesc{Index: i, Type: short(st.Field(i).Type().String())}
 			return st.Field(i)
 		}
 	}
-	return nil
+	return e.renamedField(pkg, typ, field)
 }
 
 // Method returns the declared method object (concrete or interface) pkg.typ.m.
